@@ -18,6 +18,26 @@ impl Tok for char {
         *self
     }
 }
+/// C19: a token type with observable ownership -- every instance (the caller's originals and every clone the library
+/// makes) carries a Track, so a token dropped twice, or a clone that is never dropped, is counted
+#[derive(Debug, Clone)]
+pub struct KT {
+    pub c: char,
+    pub t: crate::val::Track,
+}
+impl PartialEq for KT {
+    fn eq(&self, o: &KT) -> bool {
+        self.c == o.c
+    }
+}
+impl Tok for KT {
+    fn from_ch(c: char) -> KT {
+        KT { c, t: crate::val::Track::new() }
+    }
+    fn ch(&self) -> char {
+        self.c
+    }
+}
 /// model tokens that stand for multi-code-point grapheme clusters (kind "graph"): a private-use character each
 pub const CLUSTERS: &[(char, &str)] = &[('\u{E000}', "e\u{301}"), ('\u{E001}', "\u{1F1FA}\u{1F1F8}"), ('\u{E002}', "\r\n")];
 pub fn expand_clusters(toks: &[char]) -> String {
